@@ -123,7 +123,7 @@ Section Proofs.
       destruct (negb (rq_wf r)); [discriminate|].
       destruct (rq_kind r).
       + inv H. cbn. rewrite Hc. eauto.
-      + destruct (aget k (tc_used ch)); inv H. cbn. rewrite Hc. eauto.
+      + destruct (revoke_admitted (aget k (tc_used ch))); inv H. cbn. rewrite Hc. eauto.
     - destruct (aget c (p_children p)) as [ch|] eqn:Hc; [|discriminate].
       destruct (aget k (tc_resps ch)); inv H. cbn. rewrite Hc. eauto.
   Qed.
@@ -236,7 +236,7 @@ Section Proofs.
       + unfold TaProxy.p_step, TaProxy.p_process in H. destruct (aget c (p_children p)); [discriminate|]. cbn in H. inv H. now left.
       + unfold TaProxy.p_step, TaProxy.p_process in H. destruct (aget c (p_children p)) as [ch|] eqn:Hc; [|discriminate].
         destruct (negb (rq_wf r)); [discriminate|].
-        destruct (rq_kind r); [|destruct (aget k (tc_used ch)); [|discriminate]];
+        destruct (rq_kind r); [|destruct (revoke_admitted (aget k (tc_used ch))); [|discriminate]];
           cbn in H; rewrite Hc in H; inv H; now left.
       + unfold TaProxy.p_step, TaProxy.p_process in H. destruct (aget c (p_children p)) as [ch|] eqn:Hc; [|discriminate].
         destruct (aget k (tc_resps ch)); [|discriminate]. cbn in H. rewrite Hc in H. inv H. now left.
@@ -334,7 +334,7 @@ Section Proofs.
     - unfold TaProxy.p_step, TaProxy.p_process in H. destruct (aget c (p_children p)) as [ch|] eqn:Hc; [|discriminate].
       assert (Hnd : NoDup (map fst (aput k r (tc_reqs ch)))) by (apply NoDup_aput; eapply H2; eapply aget_In; eauto).
       destruct (negb (rq_wf r)); [discriminate|].
-      destruct (rq_kind r); [|destruct (aget k (tc_used ch)); [|discriminate]];
+      destruct (rq_kind r); [|destruct (revoke_admitted (aget k (tc_used ch))); [|discriminate]];
         cbn in H; rewrite Hc in H; inv H; unfold wf_proxy; cbn [p_children]; apply wf_children_aput; auto.
     - unfold TaProxy.p_step, TaProxy.p_process in H. destruct (aget c (p_children p)) as [ch|] eqn:Hc; [|discriminate].
       destruct (aget k (tc_resps ch)); [|discriminate]. cbn in H. rewrite Hc in H. inv H.
@@ -587,7 +587,7 @@ Section Proofs.
     - destruct (aget c (p_children p)); [discriminate|]. cbn in H. inv H. auto.
     - destruct (aget c (p_children p)) as [ch|] eqn:E; [|discriminate].
       destruct (negb (rq_wf r)); [discriminate|].
-      destruct (rq_kind r); [|destruct (aget k (tc_used ch)); [|discriminate]]; cbn in H; rewrite E in H; inv H; auto.
+      destruct (rq_kind r); [|destruct (revoke_admitted (aget k (tc_used ch))); [|discriminate]]; cbn in H; rewrite E in H; inv H; auto.
     - destruct (aget c (p_children p)) as [ch|] eqn:E; [|discriminate].
       destruct (aget k (tc_resps ch)); [|discriminate]. cbn in H. rewrite E in H. inv H. auto.
   Qed.
@@ -842,70 +842,73 @@ Section Completes.
   Hypothesis sig_sound : forall (C : Type) (k : N) (m : msg C),
     validate C k m = true <-> m_by m = k /\ m_intact m = true.
 
-  (** ** An open signer request can always be completed by an honest exchange: FULL STATEMENT, refuted *)
-  Definition exchange_always_completes : Prop :=
-    forall y0 ops, sys_init y0 -> wf_proxy (y_p y0) -> ops_ok validate y0 ops ->
+  (** ** "An open signer request can always be completed" against an ARBITRARY environment: full
+         statement, refuted. (With the admission rule of the pinned tree it was refuted already by a
+         second revocation of a revoked key, finding F15b, now fixed: [second_revocation_wedged_pinned].) *)
+  Definition exchange_completes_any_env : Prop :=
+    forall y0 ops, sys_init y0 -> p_children (y_p y0) = [] -> ops_ok validate y0 ops ->
       let y := sys_run validate y0 ops in
       forall req, p_get_request (y_p y) = Some req ->
-        exists s' resp p', s_process validate (y_s y) req None = Ok (s', resp)
-                           /\ p_step validate (y_p y) (PResponse resp) = POk p'.
+        (exists r p', In r (y_resps y) /\ p_step validate (y_p y) (PResponse r) = POk p')
+        \/ (exists s' resp p', s_process validate (y_s y) req None = Ok (s', resp)
+                               /\ p_step validate (y_p y) (PResponse resp) = POk p').
 
-  (** Witness (finding F15b): child 10 obtains a certificate for key 100, has it revoked, and then asks
-      for the revocation once more (what a CA restored from a backup does). The proxy admits the second
-      revocation because key 100 is still in [used_keys] (as Revoked); the signer no longer holds a
-      certificate for it and fails the whole request; the open request can never be answered. *)
-  Definition wedge_y0 : sys :=
+  (** Residual obstacle (the signer keeps no memory of nonces): the signer answers TWO versions of the
+      request with nonce 2 -- one fetched before child 10 asked for the revocation of key 100, one after --
+      and the OLDER answer is handed to the proxy. The signer has dropped the certificate of key 100, the
+      proxy still has the revocation request open and key 100 in use; the next request (nonce 3) fails at
+      the signer for ever, and no answer with nonce 3 exists. Nothing is forged, nonces are fresh. *)
+  Definition desync_y0 : sys :=
     mkSys (mkProxy 1 (Some (mkSI 2 9 (mkObjs 1 []))) [] None) (mkSigner 2 1 9 (mkObjs 1 [])) [] [] [].
   Definition rq_issue : creq := mkReq KIssue 1 true.
   Definition rq_revoke : creq := mkReq KRevoke 0 true.
-  Definition wedge_ops : list sysop :=
+  Definition desync_ops : list sysop :=
     [ YAddChild 10; YChild 10 100 rq_issue; YMake 1; YGet;
       YSign (mkMsg 1 1 true [(10, [(100, rq_issue)])]) None;
       YRespond (mkMsg 1 2 true (mkResp (mkObjs 2 [100]) [(10, [(100, RIssued 1)])]));
-      YChild 10 100 rq_issue;
-      YChild 10 100 rq_revoke; YMake 2; YGet;
-      YSign (mkMsg 2 1 true [(10, [(100, rq_revoke)])]) None;
-      YRespond (mkMsg 2 2 true (mkResp (mkObjs 3 []) [(10, [(100, RRevoked)])]));
-      YChild 10 100 rq_revoke;
-      YChild 10 100 rq_revoke;          (* the second revocation of the same key: admitted *)
+      YChild 10 100 rq_issue;                                  (* key 100 certified and handed over *)
+      YMake 2; YGet;
+      YSign (mkMsg 2 1 true []) None;                          (* answer A: nothing to do *)
+      YChild 10 100 rq_revoke; YGet;                           (* the revocation request arrives *)
+      YSign (mkMsg 2 1 true [(10, [(100, rq_revoke)])]) None;  (* answer B: key 100 revoked at the signer *)
+      YRespond (mkMsg 2 2 true (mkResp (mkObjs 3 [100]) []));  (* answer A is handed to the proxy *)
       YMake 3 ].
 
-  Lemma wedge_ops_ok : ops_ok validate_std wedge_y0 wedge_ops.
+  Lemma desync_ops_ok : ops_ok validate_std desync_y0 desync_ops.
   Proof.
     vm_compute. repeat split; try exact I; try lia; try discriminate; intros; try tauto; try discriminate.
     all: try (intros [H|H]; [discriminate|tauto]).
   Qed.
 
-  Theorem exchange_always_completes_refuted : ~ exchange_always_completes.
+  Theorem exchange_completes_any_env_refuted : ~ exchange_completes_any_env.
   Proof.
     intros H.
     assert (Hext := sound_is_std validate sig_sound).
-    specialize (H wedge_y0 wedge_ops).
-    assert (Hinit : sys_init wedge_y0).
-    { unfold sys_init, wedge_y0. cbn. repeat split; try reflexivity; try discriminate. eexists. repeat split. }
-    assert (Hwf : wf_proxy (y_p wedge_y0)).
-    { split; cbn; [constructor|intros c ch []]. }
-    assert (Hok : ops_ok validate wedge_y0 wedge_ops).
-    { apply (ops_ok_ext validate validate_std Hext). exact wedge_ops_ok. }
-    specialize (H Hinit Hwf Hok). cbv zeta in H.
+    specialize (H desync_y0 desync_ops).
+    assert (Hinit : sys_init desync_y0).
+    { unfold sys_init, desync_y0. cbn. repeat split; try reflexivity; try discriminate. eexists. repeat split. }
+    assert (Hok : ops_ok validate desync_y0 desync_ops).
+    { apply (ops_ok_ext validate validate_std Hext). exact desync_ops_ok. }
+    specialize (H Hinit eq_refl Hok). cbv zeta in H.
     rewrite (sys_run_ext validate validate_std Hext) in H.
-    destruct (H (mkMsg 3 1 true [(10, [(100, rq_revoke)])]) eq_refl) as [s' [resp [p' [Hs _]]]].
-    rewrite (s_process_ext validate validate_std Hext) in Hs. vm_compute in Hs. discriminate.
+    destruct (H (mkMsg 3 1 true [(10, [(100, rq_revoke)])]) eq_refl) as [[r [p' [Hin Hp]]]|[s' [resp [p' [Hs _]]]]].
+    - rewrite (p_step_ext validate validate_std Hext) in Hp.
+      vm_compute in Hin. destruct Hin as [<-|[<-|[<-|[]]]]; vm_compute in Hp; discriminate.
+    - rewrite (s_process_ext validate validate_std Hext) in Hs. vm_compute in Hs. discriminate.
   Qed.
 
-  (** The wedge is permanent as long as the offending request is there: the nonce stays open, so no new
-      request can be made either. *)
-  Theorem wedged_no_new_request :
-    let y := sys_run validate_std wedge_y0 wedge_ops in
+  (** In that state no new request can be made either. *)
+  Theorem desync_no_new_request :
+    let y := sys_run validate_std desync_y0 desync_ops in
     p_open (y_p y) = Some 3
     /\ s_process validate_std (y_s y) (mkMsg 3 1 true (current_requests (y_p y))) None = Err SUnknownKey
     /\ forall n, p_step validate_std (y_p y) (PMake n) = PErr EHasRequest.
   Proof. vm_compute. auto. Qed.
 
-  (** ** The strongest true restriction *)
+  (** ** One exchange: it completes unless some open revocation names a key the signer holds no certificate for *)
   Definition all_keys (l : request) : list N := flat_map (fun e => map fst (snd e)) l.
 
-  (** The known finding: some open revocation names a key for which the signer holds no certificate. *)
+  (** Some open revocation names a key for which the signer holds no certificate. *)
   Definition Known_C15 (p : proxy) (s : signer) : Prop :=
     exists c k r, open_req p c k = Some r /\ rq_kind r = KRevoke /\ ~ In k (o_issued (s_objs s)).
 
@@ -979,7 +982,7 @@ Section Completes.
       destruct (rq_wf r) eqn:Ewf; cbn [negb] in H; [|discriminate].
       assert (Hp' : p' = mkProxy (p_id p) (p_signer p)
                 (aput c (mkChild (tc_used ch) (aput k r (tc_reqs ch)) (tc_resps ch)) (p_children p)) (p_open p)).
-      { destruct (rq_kind r); [|destruct (aget k (tc_used ch)); [|discriminate]]; cbn in H; rewrite Ec in H; now inv H. }
+      { destruct (rq_kind r); [|destruct (revoke_admitted (aget k (tc_used ch))); [|discriminate]]; cbn in H; rewrite Ec in H; now inv H. }
       subst p'. intros c' k' r'. unfold open_req. cbn [p_children].
       destruct (N.eq_dec c' c) as [->|Hne].
       + rewrite aget_aput_same. cbn [tc_reqs].
@@ -1028,6 +1031,488 @@ Section Completes.
     now apply (response_accepted_effect validate) in Hp'.
   Qed.
 End Completes.
+
+(** * Disciplined operation: the exchange always completes *)
+Lemma NoDup_app_intro {A} (a b : list A) : NoDup a -> NoDup b -> (forall x, In x a -> ~ In x b) -> NoDup (a ++ b).
+Proof.
+  induction a as [|y a IH]; cbn; intros Ha Hb Hd; [exact Hb|].
+  inversion Ha as [|? ? Hni Hnd]; subst. constructor.
+  - intros Hin. apply in_app_or in Hin. destruct Hin as [Hin|Hin]; [contradiction|].
+    exact (Hd y (or_introl eq_refl) Hin).
+  - apply IH; [assumption|assumption|]. intros x Hx. apply Hd. now right.
+Qed.
+
+Lemma all_keys_flat l : all_keys l = map fst (flat_map snd l).
+Proof. unfold all_keys. induction l as [|[c reqs] l IH]; cbn; [reflexivity|]. now rewrite map_app, IH. Qed.
+
+Lemma process_reqs_app a : forall iss b,
+  process_reqs iss (a ++ b) =
+  match process_reqs iss a with
+  | Ok (i1, r1) => match process_reqs i1 b with Ok (i2, r2) => Ok (i2, r1 ++ r2) | Err e => Err e end
+  | Err e => Err e
+  end.
+Proof.
+  induction a as [|[k r] a IH]; intros iss b; cbn [app process_reqs].
+  - destruct (process_reqs iss b) as [[i2 r2]|]; reflexivity.
+  - destruct (negb (rq_wf r)); [reflexivity|].
+    destruct (rq_kind r).
+    + rewrite IH. destruct (process_reqs (add_issued k iss) a) as [[i1 r1]|]; [|reflexivity].
+      destruct (process_reqs i1 b) as [[i2 r2]|]; reflexivity.
+    + destruct (memb k iss); [|reflexivity].
+      rewrite IH. destruct (process_reqs (remove_key k iss) a) as [[i1 r1]|]; [|reflexivity].
+      destruct (process_reqs i1 b) as [[i2 r2]|]; reflexivity.
+Qed.
+
+Lemma process_children_flat l : forall iss iss' crs,
+  process_children iss l = Ok (iss', crs) -> exists rs, process_reqs iss (flat_map snd l) = Ok (iss', rs).
+Proof.
+  induction l as [|[c reqs] l IH]; intros iss iss' crs; cbn [process_children flat_map snd].
+  - intros [= <- <-]. cbn. eauto.
+  - destruct (process_reqs iss reqs) as [[i1 rs1]|] eqn:E1; [|discriminate].
+    destruct (process_children i1 l) as [[i2 crs2]|] eqn:E2; [|discriminate].
+    intros [= <- <-]. destruct (IH _ _ _ E2) as [rs2 E3].
+    rewrite process_reqs_app, E1, E3. eauto.
+Qed.
+
+(** The keys that hold a certificate after a processed request. *)
+Lemma process_reqs_issued l : forall iss iss' rs,
+  NoDup (map fst l) -> process_reqs iss l = Ok (iss', rs) ->
+  forall x, In x iss' <-> match aget x l with Some r => rq_kind r = KIssue | None => In x iss end.
+Proof.
+  induction l as [|[k r] l IH]; intros iss iss' rs Hnd; cbn [process_reqs aget].
+  - intros [= <- <-] x. tauto.
+  - cbn [map fst] in Hnd. inversion Hnd as [|? ? Hni Hnd']; subst.
+    destruct (negb (rq_wf r)); [discriminate|].
+    destruct (rq_kind r) eqn:Ek.
+    + destruct (process_reqs (add_issued k iss) l) as [[i2 rs2]|] eqn:E; [|discriminate].
+      intros [= <- <-] x. rewrite (IH _ _ _ Hnd' E x).
+      destruct (k =? x) eqn:Ex.
+      * apply N.eqb_eq in Ex. subst x. apply aget_None_notin in Hni. rewrite Hni, In_add_issued. tauto.
+      * apply N.eqb_neq in Ex. destruct (aget x l); [tauto|]. rewrite In_add_issued. split; [intros [->|?]; tauto|tauto].
+    + destruct (memb k iss); [|discriminate].
+      destruct (process_reqs (remove_key k iss) l) as [[i2 rs2]|] eqn:E; [|discriminate].
+      intros [= <- <-] x. rewrite (IH _ _ _ Hnd' E x).
+      destruct (k =? x) eqn:Ex.
+      * apply N.eqb_eq in Ex. subst x. apply aget_None_notin in Hni. rewrite Hni, In_remove_key.
+        split; [tauto|congruence].
+      * apply N.eqb_neq in Ex. destruct (aget x l); [tauto|]. rewrite In_remove_key. split; [tauto|].
+        intros H. split; [exact H|]. intros ->. congruence.
+Qed.
+
+(** What the answers do to the used-key states of a child. *)
+Definition used_after (a : cresp) (old : option ustate) : option ustate :=
+  match a with RIssued _ => Some InUse | RRevoked => Some Revoked | RError => old end.
+
+Lemma apply_child_resps_used_other l : forall ch k,
+  ~ In k (map fst l) -> aget k (tc_used (apply_child_resps ch l)) = aget k (tc_used ch).
+Proof.
+  unfold apply_child_resps. induction l as [|[k0 a0] l IH]; intros ch k Hni; cbn [fold_left]; [reflexivity|].
+  cbn [map fst In] in Hni. rewrite IH by tauto. unfold apply_child_resp. cbn [tc_used fst snd].
+  destruct a0; try reflexivity; apply aget_aput_other; intros ->; tauto.
+Qed.
+
+Lemma apply_child_resps_used_in l : forall ch k a,
+  NoDup (map fst l) -> In (k, a) l ->
+  aget k (tc_used (apply_child_resps ch l)) = used_after a (aget k (tc_used ch)).
+Proof.
+  induction l as [|[k0 a0] l IH]; intros ch k a Hnd Hin; [destruct Hin|].
+  cbn [map fst] in Hnd. inversion Hnd as [|? ? Hni Hnd']; subst.
+  change (apply_child_resps ch ((k0, a0) :: l)) with (apply_child_resps (apply_child_resp ch (k0, a0)) l).
+  destruct Hin as [[= -> ->]|Hin].
+  - rewrite apply_child_resps_used_other by exact Hni.
+    unfold apply_child_resp. cbn [tc_used fst snd]. destruct a; cbn [used_after]; try apply aget_aput_same. reflexivity.
+  - rewrite (IH _ k a Hnd' Hin). f_equal.
+    unfold apply_child_resp. cbn [tc_used fst snd].
+    assert (Hne : k <> k0). { intros ->. apply Hni. change k0 with (fst (k0, a)). now apply in_map. }
+    destruct a0; try reflexivity; now apply aget_aput_other.
+Qed.
+
+Definition kind_used (r : creq) : ustate := match rq_kind r with KIssue => InUse | KRevoke => Revoked end.
+
+Lemma answered_child ch k :
+  NoDup (map fst (tc_reqs ch)) ->
+  let ch1 := apply_child_resps ch (answers (tc_reqs ch)) in
+  aget k (tc_reqs ch1) = None
+  /\ aget k (tc_used ch1) = match aget k (tc_reqs ch) with Some r => Some (kind_used r) | None => aget k (tc_used ch) end.
+Proof.
+  intros Hnd ch1. split.
+  - subst ch1. rewrite apply_child_resps_reqs, answers_keys.
+    destruct (memb k (map fst (tc_reqs ch))) eqn:E; [reflexivity|].
+    apply aget_None_notin. intros Hin. apply memb_In in Hin. congruence.
+  - subst ch1. destruct (aget k (tc_reqs ch)) as [r|] eqn:E.
+    + rewrite (apply_child_resps_used_in (answers (tc_reqs ch)) ch k (answer r)).
+      * unfold answer, kind_used. now destruct (rq_kind r).
+      * now rewrite answers_keys.
+      * unfold answers. apply in_map_iff. exists (k, r). split; [reflexivity|]. now apply aget_In.
+    + apply apply_child_resps_used_other. rewrite answers_keys. now apply aget_None_notin.
+Qed.
+
+Lemma exchange_children p c :
+  NoDup (map fst (p_children p)) ->
+  aget c (apply_resp_children (p_children p) (child_answers (current_requests p))) =
+  match aget c (p_children p) with
+  | None => None
+  | Some ch => Some (apply_child_resps ch (answers (tc_reqs ch)))
+  end.
+Proof.
+  intros Hnd. destruct (aget c (p_children p)) as [ch|] eqn:Hc.
+  - destruct (tc_reqs ch) as [|kr0 reqs0] eqn:Hreqs.
+    + rewrite apply_resp_children_other, Hc; [reflexivity|].
+      rewrite child_answers_keys. intros Hin. apply in_map_iff in Hin. destruct Hin as [[c1 l1] [Hc1 Hin]].
+      cbn [fst] in Hc1. subst c1. unfold current_requests in Hin. apply filter_In in Hin. destruct Hin as [Hin Hne].
+      apply in_map_iff in Hin. destruct Hin as [[c2 ch2] [[= <- <-] Hin]].
+      apply In_aget_nodup in Hin; [|exact Hnd]. rewrite Hc in Hin. inv Hin. cbn [snd] in Hne. now rewrite Hreqs in Hne.
+    + rewrite <- Hreqs. apply apply_resp_children_in; auto.
+      * rewrite child_answers_keys. now apply current_requests_nodup.
+      * unfold child_answers. apply in_map_iff. exists (c, tc_reqs ch). split; [reflexivity|].
+        unfold current_requests. apply filter_In. split.
+        -- apply in_map_iff. exists (c, ch). split; [reflexivity|]. now apply aget_In.
+        -- cbn [snd]. now rewrite Hreqs.
+  - rewrite apply_resp_children_other, Hc; [reflexivity|].
+    rewrite child_answers_keys. intros Hin. apply current_requests_keys in Hin.
+    apply aget_None_notin in Hc. contradiction.
+Qed.
+
+Lemma current_requests_In p c reqs :
+  NoDup (map fst (p_children p)) -> In (c, reqs) (current_requests p) ->
+  exists ch, aget c (p_children p) = Some ch /\ tc_reqs ch = reqs.
+Proof.
+  intros Hnd Hin. unfold current_requests in Hin. apply filter_In in Hin. destruct Hin as [Hin _].
+  apply in_map_iff in Hin. destruct Hin as [[c' ch] [[= <- <-] Hin]]. cbn [fst snd].
+  exists ch. split; [now apply In_aget_nodup|reflexivity].
+Qed.
+
+Section Disciplined.
+  Variable validate : forall C : Type, N -> msg C -> bool.
+  Hypothesis sig_sound : forall (C : Type) (k : N) (m : msg C),
+    validate C k m = true <-> m_by m = k /\ m_intact m = true.
+  Variable owner : N -> N.          (* every child key identifier belongs to one child *)
+
+  Record HInv (y : sys) : Prop := mkHInv {
+    h_assoc : exists si, p_signer (y_p y) = Some si /\ si_id si = s_id (y_s y) /\ si_objs si = s_objs (y_s y);
+    h_proxy : s_proxy (y_s y) = p_id (y_p y);
+    h_wf : wf_proxy (y_p y);
+    h_reqs : reqs_wf (y_p y);
+    h_owner : forall c ch k, aget c (p_children (y_p y)) = Some ch ->
+                aget k (tc_used ch) <> None \/ aget k (tc_reqs ch) <> None -> owner k = c;
+    h_used : forall c ch k, aget c (p_children (y_p y)) = Some ch ->
+                aget k (tc_used ch) = Some InUse -> In k (o_issued (s_objs (y_s y)));
+    h_rev : forall c ch k r, aget c (p_children (y_p y)) = Some ch ->
+                aget k (tc_reqs ch) = Some r -> rq_kind r = KRevoke -> aget k (tc_used ch) = Some InUse;
+    h_resps : forall r, In r (y_resps y) -> In (m_nonce r) (y_nonces y);
+    h_open : forall n, p_open (y_p y) = Some n ->
+                In n (y_nonces y) /\ forall r, In r (y_resps y) -> m_nonce r <> n }.
+
+  Lemma hinit y : sys_init y -> p_children (y_p y) = [] -> HInv y.
+  Proof.
+    intros [[si [Hs [Hid Hobjs]]] [Hp [_ [Ho [Hq [Hr Hn]]]]]] Hch. constructor.
+    - eauto.
+    - exact Hp.
+    - split; rewrite Hch; cbn; [constructor|intros c ch []].
+    - intros c k r. unfold open_req. rewrite Hch. discriminate.
+    - intros c ch k. rewrite Hch. discriminate.
+    - intros c ch k. rewrite Hch. discriminate.
+    - intros c ch k r. rewrite Hch. discriminate.
+    - rewrite Hr. intros r [].
+    - rewrite Ho. discriminate.
+  Qed.
+
+  (** The keys of the current request are pairwise distinct. *)
+  Lemma owner_nodup (l : request) :
+    NoDup (map fst l) ->
+    (forall c reqs, In (c, reqs) l -> NoDup (map fst reqs) /\ forall k, In k (map fst reqs) -> owner k = c) ->
+    NoDup (all_keys l).
+  Proof.
+    unfold all_keys. induction l as [|[c reqs] l IH]; cbn [map fst flat_map snd]; intros Hnd Hall; [constructor|].
+    inversion Hnd as [|? ? Hni Hnd']; subst.
+    destruct (Hall c reqs (or_introl eq_refl)) as [Hk Ho].
+    apply NoDup_app_intro; [exact Hk| |].
+    - apply IH; [exact Hnd'|]. intros c' reqs' Hin. apply Hall. now right.
+    - intros k Hin Hin2. apply in_flat_map in Hin2. destruct Hin2 as [[c' reqs'] [Hin' Hk']]. cbn [snd] in Hk'.
+      destruct (Hall c' reqs' (or_intror Hin')) as [_ Ho'].
+      assert (c' = c) by (rewrite <- (Ho k Hin), <- (Ho' k Hk'); reflexivity). subst c'.
+      apply Hni. change c with (fst (c, reqs')). now apply in_map.
+  Qed.
+
+  Lemma hinv_keys y : HInv y -> NoDup (all_keys (current_requests (y_p y))).
+  Proof.
+    intros HI. destruct (h_wf _ HI) as [Hnd Hndk]. apply owner_nodup.
+    - now apply current_requests_nodup.
+    - intros c reqs Hin. destruct (current_requests_In _ _ _ Hnd Hin) as [ch [Hc <-]]. split.
+      + eapply Hndk. eapply aget_In. exact Hc.
+      + intros k Hk. eapply (h_owner _ HI); [exact Hc|]. right. intros Hn. apply aget_None_notin in Hn. contradiction.
+  Qed.
+
+  Lemma hinv_not_known y : HInv y -> ~ Known_C15 (y_p y) (y_s y).
+  Proof.
+    intros HI [c [k [r [Hr [Hk Hni]]]]]. unfold open_req in Hr.
+    destruct (aget c (p_children (y_p y))) as [ch|] eqn:Hc; [|discriminate].
+    apply Hni. eapply (h_used _ HI); [exact Hc|]. eapply (h_rev _ HI); eauto.
+  Qed.
+
+  (** ** Under disciplined operation an open request is always answered by one honest exchange. *)
+  Theorem hinv_completes y n :
+    HInv y -> p_open (y_p y) = Some n ->
+    exists req s' resp p', p_get_request (y_p y) = Some req
+      /\ s_process validate (y_s y) req None = Ok (s', resp)
+      /\ p_step validate (y_p y) (PResponse resp) = POk p' /\ p_open p' = None.
+  Proof.
+    intros HI Ho. destruct (h_assoc _ HI) as [si [Hs [Hid _]]].
+    eapply exchange_completes_except_known; eauto using h_proxy, h_wf, h_reqs, hinv_keys, hinv_not_known.
+  Qed.
+  (** *** The invariant is kept by every disciplined operation *)
+  Lemma hinv_ext y y' :
+    y_p y' = y_p y -> y_s y' = y_s y -> y_resps y' = y_resps y -> y_nonces y' = y_nonces y -> HInv y -> HInv y'.
+  Proof.
+    destruct y, y'. cbn. intros -> -> -> -> [H1 H2 H3 H4 H5 H6 H7 H8 H9]. constructor; assumption.
+  Qed.
+
+  Lemma In_aget_some {V} k (v : V) l : In (k, v) l -> aget k l <> None.
+  Proof. intros Hin Hn. apply aget_None_notin in Hn. apply Hn. change k with (fst (k, v)). now apply in_map. Qed.
+
+  (** Children part of the invariant, and how it survives the update of one child. *)
+  Definition CInv (chs : list (N * tchild)) (iss : list N) : Prop :=
+    (forall c ch k, aget c chs = Some ch -> aget k (tc_used ch) <> None \/ aget k (tc_reqs ch) <> None -> owner k = c)
+    /\ (forall c ch k, aget c chs = Some ch -> aget k (tc_used ch) = Some InUse -> In k iss)
+    /\ (forall c ch k r, aget c chs = Some ch -> aget k (tc_reqs ch) = Some r -> rq_kind r = KRevoke -> aget k (tc_used ch) = Some InUse).
+
+  Lemma cinv_update chs iss c ch' :
+    CInv chs iss ->
+    (forall k, aget k (tc_used ch') <> None \/ aget k (tc_reqs ch') <> None -> owner k = c) ->
+    (forall k, aget k (tc_used ch') = Some InUse -> In k iss) ->
+    (forall k r, aget k (tc_reqs ch') = Some r -> rq_kind r = KRevoke -> aget k (tc_used ch') = Some InUse) ->
+    CInv (aput c ch' chs) iss.
+  Proof.
+    intros [C1 [C2 C3]] N1 N2 N3. repeat split.
+    - intros c0 ch0 k Hc. destruct (N.eq_dec c0 c) as [->|Hne].
+      + rewrite aget_aput_same in Hc. inv Hc. apply N1.
+      + rewrite aget_aput_other in Hc by exact Hne. now apply C1.
+    - intros c0 ch0 k Hc. destruct (N.eq_dec c0 c) as [->|Hne].
+      + rewrite aget_aput_same in Hc. inv Hc. apply N2.
+      + rewrite aget_aput_other in Hc by exact Hne. now apply (C2 c0).
+    - intros c0 ch0 k r Hc. destruct (N.eq_dec c0 c) as [->|Hne].
+      + rewrite aget_aput_same in Hc. inv Hc. apply N3.
+      + rewrite aget_aput_other in Hc by exact Hne. now apply (C3 c0).
+  Qed.
+
+  Lemma hinv_cinv y : HInv y -> CInv (p_children (y_p y)) (o_issued (s_objs (y_s y))).
+  Proof. intros HI. repeat split; [apply (h_owner _ HI)|apply (h_used _ HI)|apply (h_rev _ HI)]. Qed.
+
+  (** A proxy step that only touches children keeps the invariant if the children part is kept. *)
+  Lemma hinv_children_step y c p' :
+    HInv y -> p_step validate (y_p y) c = POk p' ->
+    p_id p' = p_id (y_p y) -> p_signer p' = p_signer (y_p y) -> p_open p' = p_open (y_p y) ->
+    CInv (p_children p') (o_issued (s_objs (y_s y))) ->
+    HInv (mkSys p' (y_s y) (y_reqs y) (y_resps y) (y_nonces y)).
+  Proof.
+    intros HI Hst Hi Hs Ho [C1 [C2 C3]]. constructor; cbn [y_p y_s y_reqs y_resps y_nonces].
+    - rewrite Hs. apply (h_assoc _ HI).
+    - rewrite Hi. apply (h_proxy _ HI).
+    - eapply wf_proxy_step; [apply (h_wf _ HI)|exact Hst].
+    - eapply reqs_wf_step; [apply (h_reqs _ HI)|exact Hst].
+    - exact C1.
+    - exact C2.
+    - exact C3.
+    - apply (h_resps _ HI).
+    - rewrite Ho. apply (h_open _ HI).
+  Qed.
+
+  Lemma p_step_addreq p c k r p' :
+    p_step validate p (PAddReq c k r) = POk p' ->
+    exists ch, aget c (p_children p) = Some ch
+      /\ p' = mkProxy (p_id p) (p_signer p) (aput c (mkChild (tc_used ch) (aput k r (tc_reqs ch)) (tc_resps ch)) (p_children p)) (p_open p)
+      /\ (rq_kind r = KRevoke -> aget k (tc_used ch) = Some InUse).
+  Proof.
+    unfold p_step, p_process. destruct (aget c (p_children p)) as [ch|] eqn:Ec; [|discriminate].
+    destruct (negb (rq_wf r)); [discriminate|].
+    destruct (rq_kind r).
+    - cbn. rewrite Ec. intros [= <-]. exists ch. split; [reflexivity|]. split; [reflexivity|]. discriminate.
+    - destruct (aget k (tc_used ch)) as [u|] eqn:Eu; [destruct u|]; cbn; try discriminate.
+      rewrite Ec. intros [= <-]. exists ch. split; [reflexivity|]. split; [reflexivity|]. intros _. exact Eu.
+  Qed.
+
+  Lemma p_step_give p c k p' :
+    p_step validate p (PGive c k) = POk p' ->
+    exists ch, aget c (p_children p) = Some ch
+      /\ p' = mkProxy (p_id p) (p_signer p) (aput c (mkChild (tc_used ch) (tc_reqs ch) (adel k (tc_resps ch))) (p_children p)) (p_open p).
+  Proof.
+    unfold p_step, p_process. destruct (aget c (p_children p)) as [ch|] eqn:Ec; [|discriminate].
+    destruct (aget k (tc_resps ch)); [|discriminate]. cbn. rewrite Ec. intros [= <-]. eauto.
+  Qed.
+
+  Lemma hinv_self y : HInv y -> HInv (mkSys (y_p y) (y_s y) (y_reqs y) (y_resps y) (y_nonces y)).
+  Proof. apply hinv_ext; reflexivity. Qed.
+
+  Lemma hinv_child y c k r : HInv y -> owner k = c -> HInv (sys_step validate y (YChild c k r)).
+  Proof.
+    intros HI Hown. cbn [sys_step]. pose proof (hinv_cinv _ HI) as HC. pose proof HC as [C1 [C2 C3]].
+    unfold child_call. destruct (aget c (p_children (y_p y))) as [ch|] eqn:Ec; [|now apply hinv_self].
+    destruct (aget k (tc_resps ch)) as [a|].
+    - destruct (req_matches_resp r a); [|now apply hinv_self].
+      destruct (p_step validate (y_p y) (PGive c k)) as [p'| |] eqn:Est; cbn [snd]; try now apply hinv_self.
+      destruct (p_step_give _ _ _ _ Est) as [ch0 [Ec0 ->]]. rewrite Ec in Ec0. inv Ec0.
+      eapply hinv_children_step; eauto. cbn [p_children].
+      apply cinv_update; auto; cbn [tc_used tc_reqs]; intros; eauto.
+    - destruct (matching_open ch k r); [now apply hinv_self|].
+      destruct (p_step validate (y_p y) (PAddReq c k r)) as [p'| |] eqn:Est; cbn [snd]; try now apply hinv_self.
+      destruct (p_step_addreq _ _ _ _ _ Est) as [ch0 [Ec0 [-> Hrev]]]. rewrite Ec in Ec0. inv Ec0.
+      eapply hinv_children_step; eauto. cbn [p_children].
+      apply cinv_update; auto; cbn [tc_used tc_reqs].
+      + intros k0 [Hu|Hr]; [eapply C1; eauto|].
+        destruct (N.eq_dec k0 k) as [->|Hne]; [reflexivity|].
+        rewrite aget_aput_other in Hr by exact Hne. eapply C1; eauto.
+      + intros k0 Hu. eapply C2; eauto.
+      + intros k0 r0 Hr Hk. destruct (N.eq_dec k0 k) as [->|Hne].
+        * rewrite aget_aput_same in Hr. inv Hr. now apply Hrev.
+        * rewrite aget_aput_other in Hr by exact Hne. eapply C3; eauto.
+  Qed.
+
+  Lemma hinv_addchild y c : HInv y -> HInv (sys_step validate y (YAddChild c)).
+  Proof.
+    intros HI. cbn [sys_step]. unfold p_after.
+    destruct (p_step validate (y_p y) (PAddChild c)) as [p'| |] eqn:Est; try now apply hinv_self.
+    assert (Hp' : aget c (p_children (y_p y)) = None
+                  /\ p' = mkProxy (p_id (y_p y)) (p_signer (y_p y)) (aput c empty_child (p_children (y_p y))) (p_open (y_p y))).
+    { unfold p_step, p_process in Est. destruct (aget c (p_children (y_p y))); [discriminate|]. cbn in Est. inv Est. auto. }
+    destruct Hp' as [Hn ->].
+    eapply hinv_children_step; eauto. cbn [p_children].
+    apply cinv_update; [now apply hinv_cinv| | |]; cbn; intros; try discriminate. destruct H; congruence.
+  Qed.
+
+  Lemma hinv_make y n : HInv y -> ~ In n (y_nonces y) -> HInv (sys_step validate y (YMake n)).
+  Proof.
+    intros HI Hfresh. cbn [sys_step].
+    destruct (p_step validate (y_p y) (PMake n)) as [p'| |] eqn:Est; try exact HI.
+    assert (Hp' : p' = mkProxy (p_id (y_p y)) (p_signer (y_p y)) (p_children (y_p y)) (Some n)).
+    { unfold p_step, p_process in Est. destruct (p_open (y_p y)); [discriminate|]. cbn in Est. now inv Est. }
+    subst p'. destruct HI as [H1 H2 H3 H4 H5 H6 H7 H8 H9]. constructor; cbn [y_p y_s y_reqs y_resps y_nonces p_signer p_id p_children p_open]; try assumption.
+    - intros r Hr. right. now apply H8.
+    - intros n0 [= <-]. split; [now left|]. intros r Hr Hn. apply Hfresh. rewrite <- Hn. now apply H8.
+  Qed.
+
+  Lemma hinv_respond y m :
+    HInv y -> (m_by m = s_id (y_s y) -> m_intact m = true -> In m (y_resps y)) ->
+    sys_step validate y (YRespond m) = y.
+  Proof.
+    intros HI Hok. cbn [sys_step].
+    destruct (p_step validate (y_p y) (PResponse m)) as [p'| |] eqn:Est; try reflexivity.
+    exfalso. assert (Ha : exists p', p_step validate (y_p y) (PResponse m) = POk p') by eauto.
+    apply (response_accepted_iff validate sig_sound) in Ha. destruct Ha as [n [si [Ho [Hn [Hs [Hby Hint]]]]]].
+    destruct (h_assoc _ HI) as [si0 [Hs0 [Hid0 _]]]. rewrite Hs in Hs0. inv Hs0.
+    rewrite Hid0 in Hby. pose proof (Hok Hby Hint) as Hin.
+    destruct (h_open _ HI _ Ho) as [_ Hno]. now apply (Hno m Hin).
+  Qed.
+
+  Lemma hinv_exchange y n ov s' r :
+    HInv y -> p_open (y_p y) = Some n ->
+    s_process validate (y_s y) (mkMsg n (p_id (y_p y)) true (current_requests (y_p y))) ov = Ok (s', r) ->
+    exists p', p_step validate (y_p y) (PResponse r) = POk p'
+               /\ HInv (mkSys p' s' (y_reqs y) (r :: y_resps y) (y_nonces y)).
+  Proof.
+    intros HI Ho Hs.
+    pose proof (hinv_keys _ HI) as Hkeys. rewrite all_keys_flat in Hkeys.
+    destruct (h_wf _ HI) as [Hnd Hndk].
+    destruct (h_assoc _ HI) as [si [Hsi [Hid Hobjs]]].
+    unfold s_process in Hs. cbn [m_content m_nonce] in Hs.
+    destruct (validate request (s_proxy (y_s y)) _); [|discriminate].
+    destruct (process_children (o_issued (s_objs (y_s y))) (current_requests (y_p y))) as [[iss' crs]|] eqn:Hpc; [|discriminate].
+    pose proof (process_children_answers _ _ _ _ Hpc) as ->.
+    destruct (process_children_flat _ _ _ _ Hpc) as [rs Hflat].
+    pose proof (process_reqs_issued _ _ _ _ Hkeys Hflat) as Hiss.
+    inv Hs.
+    set (objs' := mkObjs (next_num (o_num (s_objs (y_s y))) ov) iss') in *.
+    set (r := mkMsg n (s_id (y_s y)) true (mkResp objs' (child_answers (current_requests (y_p y))))) in *.
+    assert (Hacc : exists p', p_step validate (y_p y) (PResponse r) = POk p').
+    { apply (response_accepted_iff validate sig_sound). exists n, si. subst r. cbn. auto. }
+    destruct Hacc as [p' Hp']. exists p'. split; [exact Hp'|].
+    pose proof (response_accepted_effect validate _ _ _ Hp') as [Eo [Ei [[si1 [Es1 Es2]] Ech]]].
+    rewrite Hsi in Es1. inv Es1. subst r. cbn [m_content r_objs r_children] in Es2, Ech.
+    (* every child after the exchange *)
+    assert (Hchild : forall c ch1, aget c (p_children p') = Some ch1 ->
+              exists ch, aget c (p_children (y_p y)) = Some ch /\ ch1 = apply_child_resps ch (answers (tc_reqs ch))).
+    { intros c ch1 Hc. rewrite Ech, (exchange_children _ c Hnd) in Hc.
+      destruct (aget c (p_children (y_p y))) as [ch|]; [|discriminate]. inv Hc. eauto. }
+    constructor; cbn [y_p y_s y_reqs y_resps y_nonces].
+    - eexists. split; [exact Es2|]. cbn. auto.
+    - cbn. rewrite Ei. apply (h_proxy _ HI).
+    - eapply wf_proxy_step; [apply (h_wf _ HI)|exact Hp'].
+    - eapply reqs_wf_step; [apply (h_reqs _ HI)|exact Hp'].
+    - intros c ch1 k Hc Hor. destruct (Hchild _ _ Hc) as [ch [Hc0 ->]].
+      assert (Hndr : NoDup (map fst (tc_reqs ch))) by (eapply Hndk; eapply aget_In; eauto).
+      destruct (answered_child ch k Hndr) as [A1 A2]. cbn zeta in A1, A2.
+      destruct Hor as [Hu|Hr]; [|congruence].
+      rewrite A2 in Hu. eapply (h_owner _ HI); [exact Hc0|].
+      destruct (aget k (tc_reqs ch)); [right; discriminate|left; exact Hu].
+    - intros c ch1 k Hc Hu. destruct (Hchild _ _ Hc) as [ch [Hc0 ->]]. cbn [s_objs o_issued objs'].
+      assert (Hndr : NoDup (map fst (tc_reqs ch))) by (eapply Hndk; eapply aget_In; eauto).
+      destruct (answered_child ch k Hndr) as [_ A2]. cbn zeta in A2. rewrite A2 in Hu.
+      apply Hiss.
+      destruct (aget k (tc_reqs ch)) as [r0|] eqn:Ek.
+      + (* the key was asked for in this exchange: it must have been an issuance *)
+        assert (Hin : In (k, r0) (flat_map snd (current_requests (y_p y)))).
+        { apply in_flat_map. exists (c, tc_reqs ch). split; [|cbn [snd]; now apply aget_In].
+          unfold current_requests. apply filter_In. split.
+          - apply in_map_iff. exists (c, ch). split; [reflexivity|]. now apply aget_In.
+          - cbn [snd]. destruct (tc_reqs ch); [discriminate|reflexivity]. }
+        rewrite (In_aget_nodup _ _ _ Hkeys Hin).
+        inv Hu. unfold kind_used in H0. destruct (rq_kind r0); [reflexivity|discriminate].
+      + destruct (aget k (flat_map snd (current_requests (y_p y)))) as [r'|] eqn:Ef.
+        * exfalso. apply aget_In in Ef. apply in_flat_map in Ef. destruct Ef as [[c' reqs'] [Hin' Hk']]. cbn [snd] in Hk'.
+          destruct (current_requests_In _ _ _ Hnd Hin') as [ch' [Hc' <-]].
+          assert (c' = c).
+          { rewrite <- (h_owner _ HI c' ch' k Hc' (or_intror (In_aget_some _ _ _ Hk'))).
+            apply (h_owner _ HI c ch k Hc0). left. congruence. }
+          subst c'. rewrite Hc0 in Hc'. inv Hc'. apply (In_aget_some _ _ _ Hk'). exact Ek.
+        * eapply (h_used _ HI); eauto.
+    - intros c ch1 k r0 Hc Hr. destruct (Hchild _ _ Hc) as [ch [Hc0 ->]].
+      assert (Hndr : NoDup (map fst (tc_reqs ch))) by (eapply Hndk; eapply aget_In; eauto).
+      destruct (answered_child ch k Hndr) as [A1 _]. cbn zeta in A1. congruence.
+    - intros r0 [<-|Hr0]; [cbn [m_nonce]; now apply (h_open _ HI)|now apply (h_resps _ HI)].
+    - rewrite Eo. discriminate.
+  Qed.
+
+  Lemma hinv_hop y h : HInv y -> hop_ok owner y h -> HInv (hop_step validate y h).
+  Proof.
+    intros HI Hok. unfold hop_step. destruct h; cbn [hop_ok] in Hok.
+    - cbn [hop_ops sys_run]. now apply hinv_make.
+    - cbn [hop_ops sys_run]. now apply hinv_child.
+    - cbn [hop_ops sys_run]. now apply hinv_addchild.
+    - cbn [hop_ops]. unfold p_get_request. destruct (p_open (y_p y)) as [n|] eqn:Eo; [|exact HI].
+      set (m := mkMsg n (p_id (y_p y)) true (current_requests (y_p y))).
+      assert (E1 : sys_step validate y YGet = mkSys (y_p y) (y_s y) (m :: y_reqs y) (y_resps y) (y_nonces y)).
+      { cbn [sys_step]. unfold p_get_request. now rewrite Eo. }
+      destruct (s_process validate (y_s y) m ov) as [[s' r]|e] eqn:Es.
+      + destruct (hinv_exchange _ _ _ _ _ HI Eo Es) as [p' [Hp' HI']].
+        cbn [sys_run]. rewrite E1. cbn [sys_step y_p y_s y_reqs y_resps y_nonces]. rewrite Es.
+        cbn [y_p y_s y_reqs y_resps y_nonces]. rewrite Hp'.
+        eapply hinv_ext; [..|exact HI']; reflexivity.
+      + cbn [sys_run]. rewrite E1. cbn [sys_step y_p y_s y_reqs y_resps y_nonces]. rewrite Es.
+        eapply hinv_ext; [..|exact HI]; reflexivity.
+    - cbn [hop_ops sys_run]. rewrite (hinv_respond _ _ HI Hok). exact HI.
+  Qed.
+
+  Lemma hinv_run hs : forall y, HInv y -> hops_ok validate owner y hs -> HInv (hop_run validate y hs).
+  Proof.
+    induction hs as [|h hs IH]; intros y HI Hok; cbn [hop_run]; [exact HI|].
+    destruct Hok as [Ho Hr]. apply IH; [now apply hinv_hop|exact Hr].
+  Qed.
+
+  (** ** After the repair of F15b: under disciplined operation (the signer sees only the proxy's current
+         request and its answer is handed back before it sees another; distinct children use distinct
+         keys), whatever the children do and whatever responses are replayed to the proxy, an open signer
+         request is ALWAYS completed by one honest exchange -- no exception for revocations any more. *)
+  Theorem exchange_always_completes y0 hs :
+    sys_init y0 -> p_children (y_p y0) = [] -> hops_ok validate owner y0 hs ->
+    let y := hop_run validate y0 hs in
+    forall n, p_open (y_p y) = Some n ->
+      exists req s' resp p', p_get_request (y_p y) = Some req
+        /\ s_process validate (y_s y) req None = Ok (s', resp)
+        /\ p_step validate (y_p y) (PResponse resp) = POk p' /\ p_open p' = None.
+  Proof.
+    intros Hinit Hch Hok y n Ho. apply (hinv_completes y n); [|exact Ho].
+    apply hinv_run; [now apply hinit|exact Hok].
+  Qed.
+End Disciplined.
 
 (** * Non-vacuity and witnesses (concrete states, intended validation function) *)
 Definition ex_proxy : proxy :=
@@ -1121,10 +1606,47 @@ Proof.
       cbn [tc_reqs aget] in Hr. destruct (200 =? k); [now inv Hr|discriminate].
 Qed.
 
-Example ta_numbers_increase_nonvacuous :
-  sys_init wedge_y0 /\ ops_ok validate_std wedge_y0 wedge_ops
-  /\ pnum (y_p (sys_run validate_std wedge_y0 wedge_ops)) = 3.
+(** The admission rule of the originally pinned tree (finding F15b, fixed): key 100 of child 10 is marked
+    Revoked and the signer holds no certificate for it. The repaired rule refuses a second revocation;
+    the pinned rule admitted it, and once stored the request fails at the signer for ever while the nonce
+    stays open. *)
+Definition pinned_proxy : proxy := mkProxy 1 (Some (mkSI 2 9 (mkObjs 3 []))) [(10, mkChild [(100, Revoked)] [] [])] None.
+Definition pinned_signer : signer := mkSigner 2 1 9 (mkObjs 3 []).
+Example second_revocation_wedged_pinned :
+  revoke_admitted_pinned (aget 100 [(100, Revoked)]) = true
+  /\ revoke_admitted (aget 100 [(100, Revoked)]) = false
+  /\ p_step validate_std pinned_proxy (PAddReq 10 100 rq_revoke) = PErr EUnknownKey          (* repaired tree *)
+  /\ exists p1 p2 req,                                                                     (* pinned tree *)
+       p_apply pinned_proxy (EvChildReq 10 100 rq_revoke) = Some p1
+       /\ p_step validate_std p1 (PMake 3) = POk p2 /\ p_get_request p2 = Some req
+       /\ s_process validate_std pinned_signer req None = Err SUnknownKey
+       /\ p_step validate_std p2 (PMake 4) = PErr EHasRequest.
+Proof. vm_compute. repeat split. do 3 eexists. repeat split. Qed.
+
+(** Disciplined operation, non-vacuous: a key is certified, revoked, the revocation is asked for a second
+    time (refused at the proxy), and the next request is open and completes. *)
+Definition disc_ops : list hop :=
+  [ HAddChild 10; HChild 10 100 rq_issue; HMake 1; HExchange None; HChild 10 100 rq_issue;
+    HChild 10 100 rq_revoke; HMake 2; HExchange None; HChild 10 100 rq_revoke;
+    HChild 10 100 rq_revoke;                       (* second revocation: refused, nothing stored *)
+    HChild 10 101 rq_issue; HMake 3 ].
+Example exchange_always_completes_nonvacuous :
+  sys_init desync_y0 /\ p_children (y_p desync_y0) = []
+  /\ hops_ok validate_std (fun _ => 10) desync_y0 disc_ops
+  /\ p_open (y_p (hop_run validate_std desync_y0 disc_ops)) = Some 3
+  /\ open_req (y_p (hop_run validate_std desync_y0 disc_ops)) 10 100 = None
+  /\ open_req (y_p (hop_run validate_std desync_y0 disc_ops)) 10 101 = Some rq_issue.
 Proof.
-  split; [|split; [exact wedge_ops_ok|reflexivity]].
-  unfold sys_init, wedge_y0. cbn. repeat split; try reflexivity; try discriminate. eexists. repeat split.
+  split; [|split; [reflexivity|split; [|vm_compute; auto]]].
+  - unfold sys_init, desync_y0. cbn. repeat split; try reflexivity; try discriminate. eexists. repeat split.
+  - vm_compute. repeat split; try exact I; try lia; try discriminate; intros; try tauto; try discriminate.
+    all: try (intros [H|H]; [discriminate|tauto]).
+Qed.
+
+Example ta_numbers_increase_nonvacuous :
+  sys_init desync_y0 /\ ops_ok validate_std desync_y0 desync_ops
+  /\ pnum (y_p (sys_run validate_std desync_y0 desync_ops)) = 3.
+Proof.
+  split; [|split; [exact desync_ops_ok|reflexivity]].
+  unfold sys_init, desync_y0. cbn. repeat split; try reflexivity; try discriminate. eexists. repeat split.
 Qed.
